@@ -12,7 +12,8 @@ EXPLANATION = ("Structural necessary conditions only: Identity::self_signed = bu
                "(already-parsed peer certs) or from rcgen; digest formatter and parser agree per format (lower-hex joined by ':' <-> split ':' radix 16; "
                "{:?} of [u8;32] <-> trim '[' ']' split ',' decimal u8; in the whole parser family (function, closures, helpers) no truncating / skipping adaptor "
                "sits between the split and the element parser and Ok is reached only after a successful Vec<u8> -> [u8;32] conversion; FromStr tries both); the parsers / loaders "
-               "contain no undischarged panic obligation.")
+               "contain no undischarged panic obligation."
+               ' Also (C19-R5/R6): the pin set has order-independent membership (new/add/contains on a set type); the PEM writers create-and-truncate their destination.')
 NOT_DECIDED = ["the round-trip equalities themselves (value-level)", "rcgen / x509-parser / pem crate behaviour", "file I/O"]
 TRUSTED = ["rustc MIR", "rcgen CertificateParams semantics", "pem::encode / rustls_pki_types PEM parsing"]
 
